@@ -1,4 +1,6 @@
 import WV.Proofs.ClientCert
+import WV.Proofs.C18
+import WV.Gen.Skel
 
 /-!
 # C18 — application events arrive once each and in causal order
@@ -41,5 +43,101 @@ theorem boss_code_key_rows :
     (∀ st, (Boss.table st .got_code).map (·.2) = some [.do_got_code] → st = .S0_empty) ∧
     (∀ st, (Boss.table st .got_key).map (·.2) = some [.W_got_key, .D_got_key, .send_status_peer_key] → st = .S1_lonely) := by
   constructor <;> (intro st; cases st <;> decide)
+
+
+/-! ## The error path: `Boss.error` at any moment, also while closing and after closed
+
+The closed system above has a conformant server, and C14 shows that no handler of such a server's frames fails, so
+`RendezvousConnector.ws_message`'s `except Exception as e: self._B.error(e)` is never taken in it.  C18's statement
+is not restricted to conformant servers.  The theorems below do not depend on any environment at all. -/
+
+open WV.C18 WV.Proofs.C18 in
+/-- **pin on the generated Boss table**: a row out of `S4_closed` stays there and tells the application nothing;
+    in every row only the first output may tell the application something; a row that notifies `closed` enters
+    `S4_closed` -/
+theorem boss_closed_rows : WV.C18.tableOK = true := by decide
+
+/-- the same, spelled out for the two outputs that notify `closed`: they occur only in rows that LEAVE a state
+    other than `S4_closed` and ENTER `S4_closed`, at the first position, once -/
+theorem closed_notified_only_on_entering_S4 (s : Boss.State) (i : Boss.Input) (s1 : Boss.State) (os : List Boss.Output)
+    (h : Boss.table s i = some (s1, os)) :
+    ((.W_closed ∈ os ∨ .W_close_with_error ∈ os) →
+      s ≠ .S4_closed ∧ s1 = .S4_closed ∧ (os.filter (fun o => WV.C18.emits o == some .closed)).length = 1 ∧
+      (os.head?.bind WV.C18.emits) = some .closed) ∧
+    (s = .S4_closed → s1 = .S4_closed ∧ os = []) := by
+  cases s <;> cases i <;> simp only [Boss.table, Option.some.injEq, Prod.mk.injEq, reduceCtorEq] at h <;>
+    obtain ⟨rfl, rfl⟩ := h <;> decide
+
+/-- **closed at most once, closed last — for every sequence of calls on the Boss whatsoever**: inputs in any
+    order and number, from anybody (`error` from the connector at any moment, `closed` from a Terminator that
+    finishes late, a re-entrant application inside any callback), nested to any depth inside any output, with
+    exceptions unwinding any part of a row (`WV.Proofs.C18.Ex`) -/
+theorem closed_once_and_last_whatever_calls_the_boss {s : Boss.State} {m : WV.C18.BMon}
+    (h : WV.Proofs.C18.Run Boss.table Boss.init {} s m) : m.closedTwice = false ∧ m.afterClosed = false :=
+  have hi := WV.Proofs.C18.run_inv boss_closed_rows h WV.Proofs.C18.inv_init
+  ⟨hi.1, hi.2.1⟩
+
+/-- … and from any state reached that way: once `closed` was notified the Boss is in `S4_closed` for good -/
+theorem closed_means_S4 {s : Boss.State} {m : WV.C18.BMon}
+    (h : WV.Proofs.C18.Run Boss.table Boss.init {} s m) (hc : m.closedSeen = true) : s = .S4_closed :=
+  (WV.Proofs.C18.run_inv boss_closed_rows h WV.Proofs.C18.inv_init).2.2 hc
+
+/-- the hypotheses are satisfiable and the run is not trivial: an `error` whose `closed` callback calls `close()`
+    again (nested inside the notification) -/
+example : ∃ s m, WV.Proofs.C18.Run Boss.table Boss.init {} s m ∧ m.closedSeen = true ∧ s = .S4_closed :=
+  ⟨.S4_closed, { closedSeen := true },
+   .row (s1 := .S4_closed) (os := [.W_close_with_error, .send_status_closed]) .k_error rfl
+     (.cons (.row (s1 := .S4_closed) (os := []) .close rfl .nil .done) (.cons .done .nil))
+     .done, rfl, rfl⟩
+
+/-- the monitor is not vacuous: a table that differs from the generated one in ONE row,
+    `S4_closed --closed--> S4_closed [W_closed]`, fails the pin, and has a run (close, error while closing, then the
+    Terminator completes) with `closed` notified twice -/
+def tableWithLateClosedRow : WV.C18.Table := fun s i =>
+  if s = .S4_closed ∧ i = .closed then some (.S4_closed, [.W_closed]) else Boss.table s i
+
+theorem late_closed_row_fails_the_pin : WV.C18.tableOKof tableWithLateClosedRow = false := by decide
+
+theorem late_closed_row_notifies_twice :
+    (WV.C18.bossFeed tableWithLateClosedRow Boss.init {} [.got_code, .close, .k_error, .closed]).2.closedTwice = true := by decide
+
+/-- `emits` is what the composed model's `exec` does for each Boss output (and `ClientSkel.skeleton_agrees` ties
+    that to the `self._W.*` calls of the method bodies in the working tree) -/
+theorem emits_agrees_with_client_model (o : Boss.Output) :
+    (match exec { ctl := {} } (.oB o) {} with
+     | .cont _ push => push.filterMap (fun p => match p.1 with
+        | .w .code => some WV.C18.Note.code | .w .key => some .key | .w .verifier => some .verifier
+        | .w .versions => some .versions | .w .received => some .received | .w (.closed _) => some .closed
+        | _ => none)
+     | .fail _ _ => []) = (WV.C18.emits o).toList := by
+  cases o <;> rfl
+
+/-- what is inside the `try` of `ws_message` and what is not: the handler call only; its `except` tells the Boss -/
+theorem ws_message_skeleton :
+    Skel.skeleton "RendezvousConnector.ws_message" =
+      [("if", "self._debug_record_inbound_f"), ("if", "errors._UnknownMessageTypeError"), ("try", "meth"),
+       ("except", "_B.error")] := by decide
+
+/-- a frame whose handler raises, in the composed model, for EVERY state of the client: after closed it is silent … -/
+theorem bad_frame_after_closed_is_silent (c : Ctl) (h : c.b = .S4_closed) :
+    WV.C18.faultStep c .handler = (c, [], .internal WV.C18.frameExn) := by
+  obtain ⟨b, n, m, t, cc, a, l, i, k, sk, o, r, s, x1, x2, x3, x4, x5, x6, x7, x8, x9, x10, x11, x12, x13, x14, x15, x16, x17, x18, x19, x20⟩ := c
+  simp only at h
+  subst h
+  rfl
+
+/-- … and before that it notifies `closed` exactly once, with the error, and moves the Boss to `S4_closed`
+    without touching any other machine (in particular while the wormhole is closing) -/
+theorem bad_frame_closes_exactly_once (c : Ctl) (h : c.b ≠ .S4_closed) :
+    WV.C18.faultStep c .handler =
+      ({ c with b := .S4_closed, result := .internalError }, [.ev (.closed .internalError)], .internal WV.C18.frameExn) := by
+  obtain ⟨b, n, m, t, cc, a, l, i, k, sk, o, r, s, x1, x2, x3, x4, x5, x6, x7, x8, x9, x10, x11, x12, x13, x14, x15, x16, x17, x18, x19, x20⟩ := c
+  simp only [ne_eq] at h
+  cases b <;> first | exact absurd rfl h | rfl
+
+/-- frames that fail before the `try`, and frames of an unknown type, change nothing and notify nothing -/
+theorem other_unusable_frames_touch_nothing (c : Ctl) :
+    (WV.C18.faultStep c .raw).1 = c ∧ (WV.C18.faultStep c .raw).2.1 = [] ∧
+    WV.C18.faultStep c .unknown = (c, [], .ok) := ⟨rfl, rfl, rfl⟩
 
 end WV.Props.C18
